@@ -133,11 +133,18 @@ func (p *dataSanitationProcessor) Execute(
 	onRequest.SetBody(scrubbedBody[0])
 	apiStream.SetRequest(onRequest)
 
+	// GetParsedURL returns nil for a URL that cannot be parsed (e.g. a path with an
+	// invalid percent-escape such as "/%zz"); the path as received is used then.
+	path := onRequest.GetPath()
+	if parsedURL := onRequest.GetParsedURL(); parsedURL != nil {
+		path = parsedURL.Path
+	}
+
 	reqAction := &actions.ModifyRequestAction{
 		HeadersToSet: onRequest.GetHeaders(),
 		Host:         onRequest.GetHost(),
 		Body:         onRequest.GetBody(),
-		Path:         onRequest.GetParsedURL().Path,
+		Path:         path,
 		QueryParams:  onRequest.GetQuery(),
 	}
 
